@@ -85,7 +85,7 @@ let () =
         | "op" when t.(5) = "traits" -> traits_line (parse_ty t 7)
         | ("lu" | "dlu") when t.(1) = "traits" ->
             let ty = parse_ty t 5 in traits_line ty ^ " | fm_hasnan=" ^ (if c09_ty_hasnan ty then "1" else "0")
-        | ("lu" | "dlu") when tag = "f8" || t.(1) = "prods" -> "-"      (* float carrier / further products: lane-vs-scalar oracle only *)
+        | ("lu" | "dlu") when tag = "f8" -> "-"      (* float carrier: lane-vs-scalar oracle only *)
         | "op" ->
             let s = int_of_string t.(2) and m = int_of_string t.(3) and opid = int_of_string t.(4) in
             let plan = c09_plan (form_of t.(5)) (nat_of_int opid) (nat_of_int s) (nat_of_int m) in
@@ -101,32 +101,54 @@ let () =
               let tr = c09_v_trace fsub fmul fdiv fabs fgt fnz 0.0 1.0 (-1.0) w piv nn nn O st in
               "piv=" ^ String.concat ";" (List.map (fun (p, _) -> String.concat "," (List.map (fun x -> string_of_int (int_of_nat x)) p)) tr)
               ^ " ok=" ^ String.concat ";" (List.map (fun (_, k) -> String.concat "" (List.map (fun b -> if b then "1" else "0") k)) tr) in
+            let fadd (a : float) (b : float) = a +. b and fneg (a : float) = -. a and flt (a : float) (b : float) = a < b
+            and fabs2 (a : float) = a *. a and fsqrt (a : float) = Float.sqrt a in
+            let lm l = c09_lane_mat 0.0 (nat_of_int l) a in
+            let lanes_of f = String.concat " ; " (List.init s f) in
             (match kind with
+             (* the complete member functions: closed forms for n <= 3, LU otherwise *)
              | "solve" ->
                  let b = List.init n (fun _ -> List.init s (fun _ -> next ())) in
-                 let r = c09_v_solve fsub fmul fdiv fabs fgt fnz 0.0 1.0 (-1.0) w piv nn a b in
-                 let sp = c09_spec_solve fsub fmul fdiv fabs fgt fnz 0.0 1.0 (-1.0) w piv nn a b in
-                 res_vec r ^ " | " ^ String.concat " ; " (List.map res_vec1 sp) ^ " | " ^ trace ()
+                 let r = c09_v_solve_full fadd fsub fmul fdiv fabs fgt fnz 0.0 1.0 (-1.0) w piv nn a b in
+                 res_vec r ^ " | " ^ lanes_of (fun l -> res_vec1 (c09_s_solve_full fadd fsub fmul fdiv fabs fgt fnz 0.0 1.0 (-1.0) piv nn (lm l) (c09_lane_vec 0.0 (nat_of_int l) b)))
+                 ^ " | " ^ trace ()
              | "invert" ->
-                 let r = c09_v_invert fsub fmul fdiv fabs fgt fnz 0.0 1.0 (-1.0) w piv nn a in
-                 let sp = c09_spec_invert fsub fmul fdiv fabs fgt fnz 0.0 1.0 (-1.0) w piv nn a in
-                 res_mat r ^ " | " ^ String.concat " ; " (List.map res_mat1 sp) ^ " | " ^ trace ()
+                 let r = c09_v_invert_full fadd fsub fmul fdiv fneg fabs fgt fnz 0.0 1.0 (-1.0) w piv nn a in
+                 res_mat r ^ " | " ^ lanes_of (fun l -> res_mat1 (c09_s_invert_full fadd fsub fmul fdiv fneg fabs fgt fnz 0.0 1.0 (-1.0) piv nn (lm l)))
+                 ^ " | " ^ trace ()
              | "det" ->
-                 let d = vec (c09_v_det fsub fmul fdiv fabs fgt fnz 0.0 1.0 (-1.0) w piv nn a) in
-                 let sp = String.concat " ; " (List.map hex (c09_spec_det fsub fmul fdiv fabs fgt fnz 0.0 1.0 (-1.0) w piv nn a)) in
-                 d ^ " | " ^ sp ^ " | " ^ trace ()
+                 vec (c09_v_det_full fadd fsub fmul fdiv fabs fgt fnz 0.0 1.0 (-1.0) w piv nn a)
+                 ^ " | " ^ lanes_of (fun l -> hex (c09_s_det_full fadd fsub fmul fdiv fabs fgt fnz 0.0 1.0 (-1.0) piv nn (lm l))) ^ " | " ^ trace ()
              | "mv" ->
                  let x = List.init n (fun _ -> List.init s (fun _ -> next ())) in
-                 let fadd (a : float) (b : float) = a +. b in
                  let r = c09_v_mv fadd fmul 0.0 w a x in
-                 let lanes = List.init s (fun l -> vec (c09_s_mv fadd fmul 0.0 (c09_lane_mat 0.0 (nat_of_int l) a) (c09_lane_vec 0.0 (nat_of_int l) x))) in
-                 String.concat " " (List.map vec r) ^ " | " ^ String.concat " ; " lanes
+                 String.concat " " (List.map vec r) ^ " | " ^ lanes_of (fun l -> vec (c09_s_mv fadd fmul 0.0 (lm l) (c09_lane_vec 0.0 (nat_of_int l) x)))
+             | "prods" ->
+                 (* mtv(b), umv(b, y=b), mmv(b, y=b), usmv(0.5, b, y=b), b*b *)
+                 let x = List.init n (fun _ -> List.init s (fun _ -> next ())) in
+                 let alpha = List.init s (fun _ -> 0.5) in
+                 let vv y = String.concat " " (List.map vec y) in
+                 let simd = vv (c09_v_mtv fadd fmul 0.0 w nn a x) ^ " " ^ vv (c09_v_umv fadd fmul 0.0 w a x x) ^ " " ^ vv (c09_v_mmv fsub fmul 0.0 w a x x)
+                            ^ " " ^ vv (c09_v_usmv fadd fmul 0.0 w alpha a x x) ^ " " ^ vec (c09_v_dot fadd fmul 0.0 w x x) in
+                 simd ^ " | " ^ lanes_of (fun l -> let xl = c09_lane_vec 0.0 (nat_of_int l) x in
+                     vec (c09_s_mtv fadd fmul 0.0 nn (lm l) xl) ^ " " ^ vec (c09_s_umv fadd fmul (lm l) xl xl) ^ " " ^ vec (c09_s_mmv fsub fmul (lm l) xl xl)
+                     ^ " " ^ vec (c09_s_usmv fadd fmul 0.5 (lm l) xl xl) ^ " " ^ hex (c09_s_dot fadd fmul 0.0 xl xl))
              | "norms" ->
-                 (* only infinity_norm is modelled (HasNaN<double> = true, forwarded to the S-lane type): S-lane result | scalar per lane *)
-                 let fadd (a : float) (b : float) = a +. b and flt (a : float) (b : float) = a < b in
-                 let v = vec (c09_v_infnorm 0.0 fabs fadd fmul fdiv flt 0.0 1.0 w true a) in
-                 let lanes = List.init s (fun l -> hex (c09_s_infnorm fabs fadd fmul fdiv flt 0.0 1.0 true (c09_lane_mat 0.0 (nat_of_int l) a))) in
-                 v ^ " | " ^ String.concat " ; " lanes
+                 (* frobenius_norm2, frobenius_norm, infinity_norm, infinity_norm_real; row 0: one_norm, one_norm_real, two_norm2, two_norm, infinity_norm,
+                    infinity_norm_real; last row: infinity_norm, infinity_norm_real.  HasNaN<double> = true (forwarded to the S-lane type); for a real field
+                    the *_real variants are the same functions *)
+                 let row k = List.nth a k in
+                 let inf = c09_v_infnorm 0.0 fabs fadd fmul fdiv flt 0.0 1.0 w true a in
+                 let one r = c09_v_one_norm 0.0 fabs fadd 0.0 w r and vinf r = c09_v_vec_infnorm 0.0 fabs fadd fmul fdiv flt 0.0 1.0 w true r in
+                 let simd = [ c09_v_frobenius_norm2 0.0 fabs fabs2 fadd 0.0 w a; c09_v_frobenius_norm 0.0 fabs fabs2 fadd fsqrt 0.0 w a; inf; inf;
+                              one (row 0); one (row 0); c09_v_two_norm2 0.0 fabs fabs2 fadd 0.0 w (row 0); c09_v_two_norm 0.0 fabs fabs2 fadd fsqrt 0.0 w (row 0);
+                              vinf (row 0); vinf (row 0); vinf (row (n - 1)); vinf (row (n - 1)) ] in
+                 String.concat " " (List.map vec simd) ^ " | " ^ lanes_of (fun l ->
+                     let m = lm l in let r0 = List.nth m 0 and rn = List.nth m (n - 1) in
+                     let sinf = c09_s_infnorm fabs fadd fmul fdiv flt 0.0 1.0 true m and sone = c09_s_one_norm fabs fadd 0.0 r0
+                     and svi r = c09_s_vec_infnorm fabs fadd fmul fdiv flt 0.0 1.0 true r in
+                     vec [ c09_s_frobenius_norm2 fabs2 fadd 0.0 m; c09_s_frobenius_norm fabs2 fadd fsqrt 0.0 m; sinf; sinf; sone; sone;
+                           c09_s_two_norm2 fabs2 fadd 0.0 r0; c09_s_two_norm fabs2 fadd fsqrt 0.0 r0; svi r0; svi r0; svi rn; svi rn ])
              | _ -> "-")
         | _ -> "UNKNOWN-CASE"
       with e -> "MODEL-ERROR " ^ Printexc.to_string e in
